@@ -168,6 +168,17 @@ def build():
         raise GenError("scan_name: more than one empty-label check")
     defs.append(("name_rejects_empty_label", "bool", "true" if n_empty == 1 else "false"))
 
+    # ---- zonetree::parsed: the conversion stops at the reader's first error
+    psrc = strip_comments(read("src/zonetree/parsed.rs"))
+    pb = impl_body(psrc, r"impl\s+TryFrom<inplace::Zonefile>\s+for\s+Zonefile\s*\{")
+    tb = fn_body(pb, "try_from")
+    one(r"for\s+res\s+in\s+source\s*\{", tb, "parsed::Zonefile::try_from loop")
+    m = one(r"Err\(err\)\s*=>\s*\{(.*?)\n\s{16}\}", tb, "parsed::Zonefile::try_from Err arm")
+    defs.append(("parsed_stops_at_error", "bool",
+                 "true" if re.search(r"return\s+Err\(errors\)\s*;", m.group(1)) else "false"))
+    ib = impl_body(inp, r"impl\s+Iterator\s+for\s+Zonefile\s*\{")
+    one(r"self\.next_entry\(\)\.transpose\(\)", ib, "Iterator for Zonefile")
+
     # ---- scan_string: is the closing quote kept out of the result?
     b = fn_body(inp, "scan_string", after="impl Scanner for EntryScanner")
     if re.search(r"let\s+mut\s+write\s*=\s*self\.zonefile\.buf\.start\s*;", b):
@@ -218,6 +229,8 @@ def build():
     #   1 scan_name  2 scan_octets  3 scan_charstr  4 scan_ascii_str
     #   5 u8  6 u16  7 u32 / Serial  8 Ttl  9 scan_charstr_entry
     #   10 convert_entry(base16)  11 convert_entry(base64)
+    #   12 while scanner.continues() { Rtype::scan } (RtypeBitmap::scan)
+    #   13 convert_token(Nsec3Salt converter)  14 convert_token(OwnerHash base32 converter)
     # Types whose scan is not a straight line of these (loops, convert_token,
     # custom converters, SVCB) are listed in type_scans_unresolved.
     import glob
@@ -257,6 +270,28 @@ def build():
     def resolve(ty, depth=0):
         if ty in PRIM:
             return PRIM[ty]
+        if ty == "Nsec3Salt":
+            body = find_scan_body(ty)
+            if body is None or not re.search(r"scanner\s*\.convert_token\(Converter::default\(\)\)", body) \
+               or "base16::SymbolConverter" not in body or "illegal NSEC3 salt" not in body \
+               or len(re.findall(r"\bscanner\s*\.\s*\w+\s*\(", body)) != 1:
+                return None
+            return [13]
+        if ty == "OwnerHash":
+            body = find_scan_body(ty)
+            if body is None or not re.search(r"scanner\s*\.convert_token\(Converter\(base32::SymbolConverter::new\(\),\s*0\)\)", body) \
+               or len(re.findall(r"\bscanner\s*\.\s*\w+\s*\(", body)) != 1:
+                return None
+            return [14]
+        if ty == "RtypeBitmap":
+            body = find_scan_body(ty)
+            if body is None or not re.search(
+                    r"while\s+scanner\.continues\(\)\s*\{\s*builder\s*\.add\(Rtype::scan\(scanner\)\?\)", body) \
+               or "Rtype" not in ascii_types:
+                return None
+            if len(re.findall(r"\bscanner\s*\.\s*\w+\s*\(", body)) != 2 or len(re.findall(r"::scan\s*\(", body)) != 1:
+                return None   # octets_builder(), continues() and the one Rtype::scan
+            return [12]
         if ty in ascii_types:
             return [4]
         if depth > 4:
